@@ -8,7 +8,7 @@ def run(tier):
     res = Result("C10", tier, "model_checking")
     res.assumptions = ["documents of the generators contain no strings that look like regex or range literals (reported literals are printed that way)",
                        "remaining_query strings are not compared (only the point reached and the reported value)",
-                       "positions are observed through the Path=<p>[L:l,C:c] strings of the structured report; SARIF regions are not asserted"]
+                       "positions are observed through the Path=<p>[L:l,C:c] strings of the structured report and through the regions of the SARIF report of the same run"]
     env = {}
     if tier == "quick":
         env = {"SLICES": "6", "SLICE": str(1 + seed() % 6)}
@@ -27,7 +27,7 @@ def run(tier):
     tr = os.path.join(WORK, "trace_C10_load.ndjson")
     n = c11.record(tr, cases, wd, {"doc"})
     wd.close()
-    c11.judge(res, tr, n, {"positions", "text", "validate-value"}, lambda name, line: "positions:%s:%s" % (name, line["fmt"]))
+    c11.judge(res, tr, n, {"positions", "sarif-regions", "text", "validate-value"}, lambda name, line: "positions:%s:%s" % (name, line["fmt"]))
     res.add("evaluations", n)
     os.remove(tr)
     res.cov["rule"] = ("PathOK over the single-clause space (every query result sits at its path; unresolved results name an "
@@ -35,7 +35,7 @@ def run(tier):
                        "`from`/`to` of every value check the implementation records equal those the specification derives, "
                        "and every data path of the specification's record resolves in the document to the reported value; documents written by "
                        "GuardLoad.Ser in JSON / pretty JSON / flow YAML / block YAML under layout vectors (indent, quoting, comments, blank lines): "
-                       "every [L,C] the validate command reports for a scalar equals the position the serialiser recorded")
+                       "every [L,C] the validate command reports for a scalar, and every SARIF region, equals the position the serialiser recorded")
     return res.finish()
 
 
